@@ -270,7 +270,7 @@ func TestC03(t *testing.T) {
 		return
 	}
 
-	search(t, rec, "history", budget(1500, 48000), 0, func(rt *rapid.T) {
+	search(t, rec, "history", budget(1500, 320000), 0, func(rt *rapid.T) {
 		W := rapid.Int64Range(3, 8).Draw(rt, "window")
 		C := rapid.Int64Range(2, 6).Draw(rt, "check")
 		nProv := rapid.IntRange(2, 6).Draw(rt, "provers")
